@@ -293,6 +293,55 @@ def _note_array_and_tracks(b, rng):
                 same = all(m["midi_pitch"] == n["midi_pitch"] and m["velocity"] == n["velocity"] and abs(m["note_on"] - n["note_on"]) < 1e-5 * (1 + abs(n["note_on"]))
                            and abs(m["sound_off"] - n["sound_off"]) < 1e-5 * (1 + abs(n["sound_off"])) for m, n in zip(back.notes, part.notes)) and len(back.notes) == len(part.notes)
                 b.case("note_array/rebuilt_part_same_pitches_velocities_onsets_sounding_ends", same, case, "round trip through the note array differs")
+    # notes handed in as other mapping types that ARE dicts (ordered, with defaults, a user's subclass) build the same part as plain dicts
+    import collections
+
+    class _Row(dict):
+        pass
+    plain = [dict(id="n%d" % i, midi_pitch=60 + i, note_on=0.5 * i, note_off=0.5 * i + 0.4, velocity=50 + i, track=0, channel=1) for i in range(3)]
+    for tname, conv in (("OrderedDict", lambda d: collections.OrderedDict(d)), ("defaultdict", lambda d: collections.defaultdict(int, d)), ("dict_subclass", lambda d: _Row(d))):
+        case = {"notes_given_as": tname}
+        ok, part = b.guard("pedal/never_fails_on_valid_notes", case, lambda: pf.PerformedPart([conv(d) for d in plain], id="P", controls=[dict(number=64, time=0.6, value=100, track=0, channel=0), dict(number=64, time=3.0, value=0, track=0, channel=0)]))
+        if ok:
+            ref = pf.PerformedPart([dict(d) for d in plain], id="P", controls=[dict(number=64, time=0.6, value=100, track=0, channel=0), dict(number=64, time=3.0, value=0, track=0, channel=0)])
+            same = [(n["midi_pitch"], n["note_on"], n["note_off"], n["sound_off"], n["velocity"]) for n in part.notes] == [(n["midi_pitch"], n["note_on"], n["note_off"], n["sound_off"], n["velocity"]) for n in ref.notes]
+            b.case("note_array/rebuilt_part_same_pitches_velocities_onsets_sounding_ends", same, case, "a part built from %s notes differs from the part built from plain dicts" % tname)
+    # a MIDI file without a tempo event, read with a tempo of the caller's choice: seconds and ticks of the note array agree under the
+    # clock (ppq, mpq) the part reports
+    import io as _io
+    import mido
+    from partitura.io.importmidi import load_performance_midi
+    for bpm in (120, 100, 60, 90.5):
+        for fppq in (480, 96):
+            mf = mido.MidiFile(type=1, ticks_per_beat=fppq)
+            tr = mido.MidiTrack()
+            mf.tracks.append(tr)
+            for msg in (mido.Message("note_on", note=60, velocity=70, time=0), mido.Message("note_off", note=60, velocity=0, time=fppq), mido.Message("note_on", note=64, velocity=71, time=fppq // 2),
+                        mido.Message("note_off", note=64, velocity=0, time=3 * fppq), mido.Message("note_on", note=67, velocity=72, time=7), mido.Message("note_off", note=67, velocity=0, time=fppq + 1)):
+                tr.append(msg)
+            buf = _io.BytesIO()
+            mf.save(file=buf)
+            buf.seek(0)
+            case = {"midi_file_without_tempo_event": True, "default_bpm": bpm, "ppq": fppq}
+            ok, perf = b.guard("note_array/no_exception", case, lambda: load_performance_midi(mido.MidiFile(file=buf), default_bpm=bpm))
+            if not ok:
+                continue
+            bad = None
+            file_ticks = [(0, fppq), (fppq + fppq // 2, 3 * fppq), (4 * fppq + fppq // 2 + 7, fppq + 1)]
+            for pp in perf.performedparts:
+                okn, na = b.guard("note_array/no_exception", case, lambda: pp.note_array())
+                if not okn:
+                    continue
+                for row, n, (ft, fd) in zip(na, pp.notes, file_ticks):
+                    if int(row["onset_tick"]) not in ticks(n["note_on"], pp.ppq, pp.mpq):
+                        bad = bad or "part clock (ppq %r, mpq %r): onset %r s reported as tick %r, under that clock it is %r" % (pp.ppq, pp.mpq, n["note_on"], int(row["onset_tick"]), sorted(ticks(n["note_on"], pp.ppq, pp.mpq)))
+                    # the seconds are the file's ticks at the tempo asked for
+                    want_s = float(Fraction(ft * 60) / (Fraction(bpm) * fppq))
+                    if abs(float(row["onset_sec"]) - want_s) > 1e-4 * (1 + want_s):
+                        bad = bad or "tick %d at %s bpm and %d ticks per quarter is %.5f s, the note array says %.5f s" % (ft, bpm, fppq, want_s, float(row["onset_sec"]))
+                    if int(row["onset_tick"]) != ft or int(row["duration_tick"]) != fd:
+                        bad = bad or "the note written at tick %d for %d ticks is reported at tick %d for %d ticks" % (ft, fd, int(row["onset_tick"]), int(row["duration_tick"]))
+            b.case("note_array/seconds_ticks_agree_and_durations_to_sounding_end", bad is None, case, bad or "")
     # parts whose items carry no track number (the default), built with and without the `track` keyword of the part; controls with and without one
     for with_kw in (False, True):
         for ctl_key in (False, True):
